@@ -29,6 +29,12 @@ def impl(case):
                        data=np.asarray(m.sparse_clusters.data, dtype=np.float64).tolist(),
                        same_object=m.sparse_clusters is m.sparse_templates,
                        chans_w=[[int(c) for c in m.get_template(t, unwhiten=False).channel_ids] for t in range(nt)],
+                       recs_w=[(lambda b: dict(template=np.asarray(b.template, dtype=np.float64).tolist(),
+                                               channels=[int(c) for c in b.channel_ids],
+                                               amplitude=np.asarray(b.amplitude, dtype=np.float64).tolist(),
+                                               best=int(b.best_channel)))(m.get_template(t, unwhiten=False)) for t in range(nt)],
+                       n_closest=int(m.n_closest_channels), thr=float(m.amplitude_threshold),
+                       wmi=np.asarray(m.wmi, dtype=np.float64).tolist(),
                        chans_u=[[int(c) for c in m.get_template(t, unwhiten=True).channel_ids] for t in range(nt)],
                        tmpl_u=[np.asarray(m._unwhiten(m.sparse_templates.data[t]).astype(np.float32), dtype=np.float64).tolist() for t in range(nt)])
             means = {}
@@ -52,9 +58,20 @@ def model_query(case, impl_res):
         return dict(p=PID, op='clusters', W=W, chans=[list(range(spec['n_channels']))] * len(W), st=st, sc=sc,
                     ns=len(W[0]), nc=spec['n_channels'])
     ok = impl_res['ok']
+    # the per-template channel lists the cluster means are restricted to are C05's: checked with the C05
+    # model (predicate on the real records) instead of being taken on trust from the model under test
+    dense = []
+    if spec.get('template_ind') is None:
+        for t, rec in enumerate(ok['recs_w']):
+            dense.append(dict(p='C05', op='dense', wmi=DC.fracs(ok['wmi']), Tw=DC.fracs(spec['templates'][t]), unwhiten=False,
+                              positions=DC.fracs(spec['channel_positions']), shanks=spec.get('channel_shanks'),
+                              n_closest=ok['n_closest'], thr=DC.frac(ok['thr']), explicit=None,
+                              impl=dict(template=DC.fracs(rec['template']), channels=rec['channels'],
+                                        amplitude=DC.fracs(rec['amplitude']), best=rec['best'])))
     return dict(p='C08', op='clusters', W=W, chans=ok['chans_w'], st=st, sc=sc, ns=len(W[0]), nc=spec['n_channels'],
-                _second=dict(p='C08', op='cluster_mean', W=DC.fracs(ok['tmpl_u']), chans=ok['chans_u'], st=st, sc=sc,
-                             cs=[int(c) for c in ok['means']]))
+                _second=dict(p='C08', op='multi', qs=[
+                    dict(p='C08', op='cluster_mean', W=DC.fracs(ok['tmpl_u']), chans=ok['chans_u'], st=st, sc=sc,
+                         cs=[int(c) for c in ok['means']])] + dense))
 
 
 def judge(case, impl_res, ans):
@@ -100,6 +117,15 @@ def judge(case, impl_res, ans):
         return 'MACHINERY: driver error in the second query: %s' % ans['second']['err']
     m2 = ans.get('second', {}).get('ok')
     if m2 is not None:
+        for t, r in enumerate(m2['res'][1:]):
+            if 'err' in r:
+                return 'MACHINERY: driver error in the channel-list query of template %d: %s' % (t, r['err'])
+            if r.get('impl_spec') is not True:
+                return ('SPEC: the channel list of template %d (%s) is not the nearest same-shank channels reaching the '
+                        'threshold, ordered by amplitude (C05), so cluster means are restricted to wrong channels' % (t, ok['recs_w'][t]['channels']))
+        if 'err' in m2['res'][0]:
+            return 'MACHINERY: driver error in the cluster-mean query: %s' % m2['res'][0]['err']
+        m2 = m2['res'][0]
         for (c, got), mm in zip(ok['means'].items(), m2['means']):
             if got['channels'] != mm['channels']:
                 return 'SPEC: get_cluster_mean_waveforms(%s) channels are not those of the dominant template' % c
